@@ -10,8 +10,8 @@ fn b(c: Core) -> Box<Core> {
 }
 
 pub const BIN: [&str; 23] = [
-    "Add", "Sub", "Mul", "Div", "FDiv", "Mod", "Pow", "BAnd", "BOr", "BXOr", "BLShift", "BRShift", "Ge", "Geq",
-    "Le", "Leq", "Eq", "Neq", "Is", "IsN", "In", "And", "Or",
+    "Add", "Sub", "Mul", "Div", "FDiv", "Mod", "Pow", "BAnd", "BOr", "BXOr", "BLShift", "BRShift",
+    "Ge", "Geq", "Le", "Leq", "Eq", "Neq", "Is", "IsN", "In", "And", "Or",
 ];
 pub const UN: [&str; 4] = ["Not", "AddU", "SubU", "BOneCmpl"];
 
@@ -69,7 +69,13 @@ fn leaf(p: &str) -> Item {
 fn literals() -> Vec<Item> {
     vec![
         (String::from("(Int 1)"), Core::Int { int: "1".into() }),
-        (String::from("(ENum 2 3)"), Core::ENum { num: "2".into(), exp: "3".into() }),
+        (
+            String::from("(ENum 2 3)"),
+            Core::ENum {
+                num: "2".into(),
+                exp: "3".into(),
+            },
+        ),
     ]
 }
 
@@ -97,27 +103,67 @@ fn gen(levels: usize, prefix: &str, full_ternary: bool) -> Vec<Item> {
         }
     }
     for (dl, cl) in &subs_l {
-        out.push((format!("(Sqrt {dl})"), Core::Sqrt { expr: b(cl.clone()) }));
+        out.push((
+            format!("(Sqrt {dl})"),
+            Core::Sqrt {
+                expr: b(cl.clone()),
+            },
+        ));
         out.push((
             format!("(Attr {dl} f)"),
-            Core::PropertyCall { object: b(cl.clone()), property: b(id("f")) },
+            Core::PropertyCall {
+                object: b(cl.clone()),
+                property: b(id("f")),
+            },
         ));
-        out.push((format!("(Call {dl})"), Core::FunctionCall { function: b(cl.clone()), args: vec![] }));
-        out.push((format!("(Lambda {dl})"), Core::AnonFun { args: vec![], body: b(cl.clone()) }));
+        out.push((
+            format!("(Call {dl})"),
+            Core::FunctionCall {
+                function: b(cl.clone()),
+                args: vec![],
+            },
+        ));
+        out.push((
+            format!("(Lambda {dl})"),
+            Core::AnonFun {
+                args: vec![],
+                body: b(cl.clone()),
+            },
+        ));
         out.push((
             format!("(Lambda1 {dl})"),
             Core::AnonFun {
-                args: vec![Core::FunArg { vararg: false, var: b(id("p")), ty: None, default: None }],
+                args: vec![Core::FunArg {
+                    vararg: false,
+                    var: b(id("p")),
+                    ty: None,
+                    default: None,
+                }],
                 body: b(cl.clone()),
             },
         ));
         out.push((
             format!("(Call1 g {dl})"),
-            Core::FunctionCall { function: b(id("g")), args: vec![cl.clone()] },
+            Core::FunctionCall {
+                function: b(id("g")),
+                args: vec![cl.clone()],
+            },
         ));
         for (dr, cr) in &subs_r {
-            out.push((format!("(Index {dl} {dr})"), Core::Index { item: b(cl.clone()), range: b(cr.clone()) }));
-            out.push((format!("(IsA {dl} {dr})"), Core::IsA { left: b(cl.clone()), right: b(cr.clone()) }));
+            out.push((
+                format!("(Index {dl} {dr})"),
+                Core::Index {
+                    item: b(cl.clone()),
+                    range: b(cr.clone()),
+                },
+            ));
+            out.push((
+                format!("(IsA {dl} {dr})"),
+                Core::IsA {
+                    left: b(cl.clone()),
+                    right: b(cr.clone()),
+                },
+            ));
         }
     }
     let lim = if full_ternary { usize::MAX } else { 14 };
@@ -126,7 +172,11 @@ fn gen(levels: usize, prefix: &str, full_ternary: bool) -> Vec<Item> {
             for (dr, cr) in subs_r.iter().take(lim) {
                 out.push((
                     format!("(Ternary {dc} {dl} {dr})"),
-                    Core::Ternary { cond: b(cc.clone()), then: b(cl.clone()), el: b(cr.clone()) },
+                    Core::Ternary {
+                        cond: b(cc.clone()),
+                        then: b(cl.clone()),
+                        el: b(cr.clone()),
+                    },
                 ));
             }
         }
@@ -175,35 +225,78 @@ fn random_tree(rng: &mut Rng, depth: usize, ctr: &mut usize) -> Item {
         }
         30 => {
             let (dl, cl) = random_tree(rng, depth - 1, ctr);
-            (format!("(Attr {dl} f)"), Core::PropertyCall { object: b(cl), property: b(id("f")) })
+            (
+                format!("(Attr {dl} f)"),
+                Core::PropertyCall {
+                    object: b(cl),
+                    property: b(id("f")),
+                },
+            )
         }
         31 => {
             let (dl, cl) = random_tree(rng, depth - 1, ctr);
-            (format!("(Call {dl})"), Core::FunctionCall { function: b(cl), args: vec![] })
+            (
+                format!("(Call {dl})"),
+                Core::FunctionCall {
+                    function: b(cl),
+                    args: vec![],
+                },
+            )
         }
         32 => {
             let (dl, cl) = random_tree(rng, depth - 1, ctr);
-            (format!("(Lambda {dl})"), Core::AnonFun { args: vec![], body: b(cl) })
+            (
+                format!("(Lambda {dl})"),
+                Core::AnonFun {
+                    args: vec![],
+                    body: b(cl),
+                },
+            )
         }
         33 => {
             let (dl, cl) = random_tree(rng, depth - 1, ctr);
-            (format!("(Call1 g {dl})"), Core::FunctionCall { function: b(id("g")), args: vec![cl] })
+            (
+                format!("(Call1 g {dl})"),
+                Core::FunctionCall {
+                    function: b(id("g")),
+                    args: vec![cl],
+                },
+            )
         }
         34 | 35 => {
             let (dl, cl) = random_tree(rng, depth - 1, ctr);
             let (dr, cr) = random_tree(rng, depth - 1, ctr);
-            (format!("(Index {dl} {dr})"), Core::Index { item: b(cl), range: b(cr) })
+            (
+                format!("(Index {dl} {dr})"),
+                Core::Index {
+                    item: b(cl),
+                    range: b(cr),
+                },
+            )
         }
         36 => {
             let (dl, cl) = random_tree(rng, depth - 1, ctr);
             let (dr, cr) = random_tree(rng, depth - 1, ctr);
-            (format!("(IsA {dl} {dr})"), Core::IsA { left: b(cl), right: b(cr) })
+            (
+                format!("(IsA {dl} {dr})"),
+                Core::IsA {
+                    left: b(cl),
+                    right: b(cr),
+                },
+            )
         }
         _ => {
             let (dc, cc) = random_tree(rng, depth - 1, ctr);
             let (dl, cl) = random_tree(rng, depth - 1, ctr);
             let (dr, cr) = random_tree(rng, depth - 1, ctr);
-            (format!("(Ternary {dc} {dl} {dr})"), Core::Ternary { cond: b(cc), then: b(cl), el: b(cr) })
+            (
+                format!("(Ternary {dc} {dl} {dr})"),
+                Core::Ternary {
+                    cond: b(cc),
+                    then: b(cl),
+                    el: b(cr),
+                },
+            )
         }
     }
 }
@@ -214,7 +307,13 @@ pub fn run(args: &[String]) {
     let mut o = std::io::BufWriter::new(so.lock());
     let mut emit = |desc: &str, core: &Core| {
         let s = format!("{core}");
-        writeln!(o, "{}\t{}", desc, s.trim_end_matches('\n').replace('\n', "\\n")).unwrap();
+        writeln!(
+            o,
+            "{}\t{}",
+            desc,
+            s.trim_end_matches('\n').replace('\n', "\\n")
+        )
+        .unwrap();
     };
     match args.first().map(|s| s.as_str()) {
         Some("exhaustive") => {
